@@ -28,13 +28,26 @@ def main():
             tier = rp.get('tier', tier)
         except Exception:
             pass
+    cov = None
+    if os.environ.get('VERIF_COVERAGE'):
+        # development aid (not used by the registered commands): line coverage of the code under test by this check
+        import coverage
+        cov = coverage.Coverage(data_file=os.environ['VERIF_COVERAGE'] + '.' + a.pid, source=[str(common.REPO / 'pygyro')],
+                                concurrency='thread', branch=True)
+        cov.start()
+
+    def leave(code):
+        if cov is not None:
+            cov.stop()
+            cov.save()
+        sys.stdout.flush()
+        os._exit(code)
     try:
         mod = importlib.import_module('props.' + a.pid.lower())
         chk = common.Check(a.pid, tier, seed, getattr(mod, 'LEVEL', 'proof'), a.replay)
         chk.no_build = a.no_build
         code = mod.run(chk)
-        sys.stdout.flush()
-        os._exit(int(code or 0))
+        leave(int(code or 0))
     except SystemExit:
         raise
     except BaseException as e:
